@@ -25,8 +25,9 @@ CHECKS['C01'] = {
     'units': [
         unit('script', 'keepstore_c01', '^TestVerifC01Script$',
              {'shards': 16, 'checks': 60}, {'shards': 16, 'checks': 1500, 'timeout': 1800}),
-        # 64 MiB boundary: a few cases, one process (each case moves several hundred MiB)
+        # 64 MiB boundary: each rapid case runs the sizes 64MiB-1, 64MiB, 64MiB+1 (3 evaluations);
+        # one process, each evaluation moves several hundred MiB
         unit('boundary', 'keepstore_c01', '^TestVerifC01Boundary$',
-             None, {'shards': 1, 'checks': 12, 'timeout': 1500}),
+             None, {'shards': 1, 'checks': 8, 'timeout': 1500}),
     ],
 }
